@@ -273,7 +273,7 @@ func sameStd(a, b stdRes, tokens bool) (bool, string) {
 	return true, ""
 }
 
-func sectionD(r *hlib.Run) {
+func sectionD(r *hlib.Run, general, hist bool) {
 	defer cdrv.Cleanup()
 	// quick tier: the gcc -O2 build only (the sanitizer build of the whole library takes minutes
 	// on a loaded machine; sections B and C run under ASan+UBSan in both tiers)
@@ -291,6 +291,7 @@ func sectionD(r *hlib.Run) {
 		}
 	}
 	rng := r.Rand.Fork()
+	hrng := r.Rand.Fork()
 	maxLen, perCodec, nEnc, maxPoints := 900, 1, 1, 48
 	if r.Thorough {
 		maxLen, perCodec, nEnc, maxPoints = 6000, 8, 10, 1<<30
@@ -302,6 +303,20 @@ func sectionD(r *hlib.Run) {
 		if kv := strings.SplitN(f, ":", 2); len(kv) == 2 && len(kv[1]) == 1 {
 			have[kv[0]] = kv[1][0]
 		}
+	}
+
+	if hist {
+		// second part: decoders that keep their own history (stdhist.go); its own generator, so
+		// that the general sweep's choices do not depend on it
+		defer func() {
+			histSweep(r, ds, fls, have, hrng)
+			for _, d := range ds {
+				d.Close()
+			}
+		}()
+	}
+	if !general {
+		return
 	}
 
 	type job struct {
@@ -531,8 +546,10 @@ func sectionD(r *hlib.Run) {
 			}
 		}
 	}
-	for _, d := range ds {
-		d.Close()
+	if !hist {
+		for _, d := range ds {
+			d.Close()
+		}
 	}
 }
 
